@@ -23,9 +23,14 @@ META = dict(
     level_note="Trusted: Coq kernel, extraction (ExtrOcamlBasic), OCaml driver, Rust harness (mutation generators, worker processes, setrlimit, "
                "allocation tracker, addr2line for call chains). The harness is built with debug assertions (arithmetic overflow panics are counted). "
                "Known findings (not repairable by a local bounds check, or repair not applicable): see known_findings.txt classes alloc-StorageRecords.set_record/..., "
-               "hang-SearchQuery.process, alloc-PathSearch.expand_node/..., panic-db_value-explicit-panic, alloc-FileStorage.read/FileStorageMemoryMapped.new, "
+               "hang-SearchQuery.process, alloc-PathSearch.expand_node/..., panic-db_value-explicit-panic, and — only while the tree lacks the log position check of "
+               "fixes/C07-wal-position.diff; with the check detected they are violations — alloc-FileStorage.read/FileStorageMemoryMapped.new, "
                "hang-Storage.read_records; each has a stored witness under corpus/C07 that is replayed on every run.",
 )
+
+
+# repaired by fixes/C07-wal-position.diff (position check in FileStorage::apply_wal_record)
+WAL_POSITION_CLASSES = ("alloc-FileStorage.read/FileStorageMemoryMapped.new", "hang-Storage.read_records")
 
 
 def detect_guards():
@@ -85,6 +90,11 @@ def run(ctx):
 
     dis = diff_lines(cases, model, impl, cls=cls)
     failures = [dict(cls=l.split(" ")[0], what=l[:3000]) for l in read_lines(os.path.join(w, "oracle.txt"))]
+    if guards[3] == "1":
+        # the tree has the log position check: the two classes it repairs are no longer accepted as known findings
+        for f in failures:
+            if f["cls"] in WAL_POSITION_CLASSES:
+                f["cls"] = "regressed-" + f["cls"]
     dist, ev, nt, samples = merge_stats([os.path.join(w, "stats.json")])
     dist = {k: v for k, v in dist.items() if not k.startswith("guided-available")}
     return dict(
